@@ -880,3 +880,138 @@ func factBefore(fn *ssa.Function, ins ssa.Instruction, fact string) bool {
 	mf.Run()
 	return mf.Before(ins)
 }
+
+// ---------- feasibility of reaching an instruction without a fact (correlated branch conditions) ----------
+
+// pathWithoutFact: is there a path from the function's entry to the block of target on which the fact is not
+// established by a branch edge, when branch conditions over the same SSA value (and all conditions recognised by isFact,
+// which are taken to be one and the same atom) are decided consistently along the path? Used where a must-flow fact is
+// lost at a join although the branches are correlated (`if t && !flag { panic }; …; if t { use }`).
+// Conservative: an exhausted step budget answers true.
+func pathWithoutFact(fn *ssa.Function, target ssa.Instruction, isFact func(atom ssa.Value) bool) bool {
+	type key = interface{}
+	factKey := key("fact")
+	budget := 20000
+	type frame struct {
+		b      *ssa.BasicBlock
+		assign map[key]bool
+	}
+	sig := func(b *ssa.BasicBlock, a map[key]bool) string {
+		s := fmt.Sprintf("%d|", b.Index)
+		var parts []string
+		for k, v := range a {
+			if vv, ok := k.(ssa.Value); ok {
+				parts = append(parts, fmt.Sprintf("%s=%v", vv.Name(), v))
+			} else {
+				parts = append(parts, fmt.Sprintf("%v=%v", k, v))
+			}
+		}
+		sort.Strings(parts)
+		return s + strings.Join(parts, ",")
+	}
+	seen := map[string]bool{}
+	var walk func(pred, b *ssa.BasicBlock, a map[key]bool) bool
+	walk = func(pred, b *ssa.BasicBlock, a map[key]bool) bool {
+		budget--
+		if budget < 0 {
+			return true
+		}
+		// boolean phis (short-circuit operators used as values): the value on the edge just taken
+		if pred != nil {
+			var na map[key]bool
+			for _, ins := range b.Instrs {
+				ph, ok := ins.(*ssa.Phi)
+				if !ok {
+					break
+				}
+				if bt, ok := ph.Type().Underlying().(*types.Basic); !ok || bt.Kind() != types.Bool {
+					continue
+				}
+				for i, pb := range b.Preds {
+					if pb != pred || i >= len(ph.Edges) {
+						continue
+					}
+					val, known := false, false
+					if cb, isC := constBool(ph.Edges[i]); isC {
+						val, known = cb, true
+					} else {
+						at, neg := condAtom(ph.Edges[i])
+						var ek key = at
+						if isFact(at) {
+							ek = factKey
+						}
+						if v, assigned := a[ek]; assigned {
+							val, known = v != neg, true
+						}
+					}
+					if known {
+						if na == nil {
+							na = make(map[key]bool, len(a)+1)
+							for x, y := range a {
+								na[x] = y
+							}
+						}
+						na[key(ssa.Value(ph))] = val
+					}
+				}
+			}
+			if na != nil {
+				a = na
+			}
+		}
+		if b == target.Block() {
+			if v, ok := a[factKey]; !ok || !v {
+				return true
+			}
+			return false
+		}
+		s := sig(b, a)
+		if seen[s] {
+			return false
+		}
+		seen[s] = true
+		if _, isIf := b.Instrs[len(b.Instrs)-1].(*ssa.If); !isIf {
+			for _, sx := range b.Succs {
+				if walk(b, sx, a) {
+					return true
+				}
+			}
+			return false
+		}
+		for k, sx := range b.Succs {
+			atom, holds, ok := edgeCond(b, k)
+			if !ok {
+				if walk(b, sx, a) {
+					return true
+				}
+				continue
+			}
+			var kk key = atom
+			if isFact(atom) {
+				kk = factKey
+			}
+			if v, assigned := a[kk]; assigned {
+				if v != holds {
+					continue
+				}
+				if walk(b, sx, a) {
+					return true
+				}
+				continue
+			}
+			na := make(map[key]bool, len(a)+1)
+			for x, y := range a {
+				na[x] = y
+			}
+			na[kk] = holds
+			if walk(b, sx, na) {
+				return true
+			}
+		}
+		return false
+	}
+	if len(fn.Blocks) == 0 {
+		return true
+	}
+	return walk(nil, fn.Blocks[0], map[key]bool{})
+}
